@@ -351,11 +351,23 @@ func runC15(c *sim.Ctx) *sim.Violation {
 				return sim.V("C15/decode/subscription-identifier-in-subscribe/rejected", "SUBSCRIBE frame %x (subscription identifier %d): %s", frame, v, o)
 			}
 			if _, body, _, err := ref.SplitFrame(frame); err == nil {
-				q := mq.NewSubscribe()
-				var uerr error
-				if pi := sim.Guard(func() { uerr = q.UnmarshalBinary(body) }); pi == nil && uerr == nil {
-					if got := q.SubscriptionID(); got != int(v) {
-						return sim.V("C15/decode/subscription-identifier-in-subscribe/value", "SUBSCRIBE body %x carries subscription identifier %d; after UnmarshalBinary SubscriptionID() is %d", body, v, got)
+				for k := 0; k < 2; k++ {
+					q := mq.NewSubscribe()
+					held := ""
+					if k == 1 {
+						// the receiver already holds an identifier (a packet object that is reused)
+						other := int(c15Bounds[1+t.Int(len(c15Bounds)-1)])
+						if other == int(v) {
+							other = 77
+						}
+						q.SetSubscriptionID(other)
+						held = fmt.Sprintf(" into a packet that held identifier %d", other)
+					}
+					var uerr error
+					if pi := sim.Guard(func() { uerr = q.UnmarshalBinary(body) }); pi == nil && uerr == nil {
+						if got := q.SubscriptionID(); got != int(v) {
+							return sim.V("C15/decode/subscription-identifier-in-subscribe/value", "SUBSCRIBE body %x carries subscription identifier %d; after UnmarshalBinary%s SubscriptionID() is %d", body, v, held, got)
+						}
 					}
 				}
 			}
